@@ -123,8 +123,8 @@ func chainSpec(id, level string) *propSpec {
 		Components: chainComponents,
 		Assumptions: []string{
 			"script validity is taken from the generator's ground-truth label per input (valid signature / one corruption); the reference ledger does not interpret scripts",
-			"all blocks carry the same proof-of-work target in the quick tier (most work = most blocks, first seen wins ties); retarget boundaries need 2016-block chains",
-			"fork depth <= 6, <= 36 blocks beyond the prefix, <= 7 transactions per block",
+			"most cases run on a 115-block prefix where every block carries the same proof-of-work target (most work = most blocks, first seen wins ties); mixed difficulty (retarget boundary at 4032, test-net minimum-difficulty blocks, heavier-but-shorter branches) only in the long-prefix variants: a quarter of the C05/C06 cases, 8 % of the C07 cases",
+			"fork depth <= 6, <= 36 blocks beyond the prefix, <= 7 transactions per block (C11: 8-45)",
 		},
 		ExpectProbes: []string{"reorg", "accepted", "refused", "clean_reopen"},
 	}
